@@ -177,6 +177,9 @@ func genRolesLifecycle(g *Gen, n int) {
 			case 1:
 				arg = upper(arg)
 				g.stats.Mut("uppercase-new-holder")
+			case 2:
+				arg = g.pick(nearAddrs(arg))
+				g.stats.Mut("near-valid-new-holder")
 			}
 			switch g.r.Intn(9) {
 			case 0, 1:
